@@ -132,3 +132,8 @@ impl DifficultyValues {
             .collect()
     }
 }
+
+// Verification hook (compiled only by `cargo kani`, which sets `--cfg kani`).
+#[cfg(kani)]
+#[path = "/verif/harness/catch_diff.rs"]
+pub(crate) mod verif_harness;
